@@ -586,6 +586,7 @@ static void build_scenarios() {
 
 // ------------------------------------------------------------------------------------------------ child
 static void child_death() {}
+static uint64_t g_cur_N = 0;   // allocation count of the fault-free run of the current scenario (set by the parent before fork)
 static void child_main(const Scn &s, int mode, uint64_t k, uint64_t trace_seq) {
     g_child = true;
     memset(&g_facts, 0, sizeof g_facts);
@@ -597,9 +598,9 @@ static void child_main(const Scn &s, int mode, uint64_t k, uint64_t trace_seq) {
     if (mode == M_SINGLE) c19_plan(1, k, 0, 1);
     else if (mode == M_STICKY) c19_plan(2, k, 0, 1);
     else if (mode == M_RANDOM) {
-        // pattern k: density 1/4 .. 1/256, start anywhere in the first 3000 allocations (derived from k only => replayable)
+        // pattern k: density 1/4 .. 1/256, first fault anywhere in the scenario (derived from k and run 0 only => replayable)
         uint64_t h = fnv(&k, sizeof k); static const uint32_t dens[] = { 4, 8, 16, 32, 64, 128, 256, 48 };
-        c19_plan(3, 1 + (h >> 8) % 3000, h, dens[h & 7]);
+        c19_plan(3, 1 + (h >> 8) % (g_cur_N ? g_cur_N : 1), h, dens[h & 7]);
     }
     run_scenario(s);
     c19_plan_off();
@@ -762,22 +763,26 @@ static const Base &base_of(size_t si) {
 }
 static bool facts_ge(const Facts &a, const Facts &b) { return a.ver_ok >= b.ver_ok && a.val_ok >= b.val_ok && a.cb_ok >= b.cb_ok; }
 
-// Tier sampling.  Every allocation outside the bulk class is a fault point in every tier.  Bulk-class allocations are ranked
-// by occurrence number within their calling context (call site x stack depth); the first occurrences of every context are
-// always taken, later ones every stride-th (offset by the seed, so different seeds cover different k).
-static bool selected(const Base &b, int mode, uint64_t k) {
+// Tier sampling.  Allocations are ranked by occurrence number within their calling context (call site x stack depth).
+// thorough: every allocation outside the bulk class (bignum / EC temporaries) is a fault point; bulk-class allocations: the first
+//           6 occurrences of every context, later ones every stride-th so that a scenario gets at most ~2500 of them.
+// quick   : load / session scenarios: every non-bulk allocation; handshake scenarios: the first 2 occurrences of every context and
+//           every 8th later one; bulk class: first occurrence of every second context + ~40 more per scenario.
+// Strides are offset by the seed, so different seeds cover different k.
+static bool selected(const Scn &sc, const Base &b, int mode, uint64_t k) {
     if (g_full) return mode != M_RANDOM || k < 2000;
-    if (mode == M_RANDOM) { uint64_t per = g_quick ? 12 : 300, lo = (g_seed % 16) * 1024; return k >= lo && k < lo + per; }
+    if (mode == M_RANDOM) { uint64_t per = g_quick ? 8 : 300, lo = (g_seed % 16) * 1024; return k >= lo && k < lo + per; }
     if (k > b.sites.size()) return true;
-    bool bulk = b.bulk[k - 1]; uint32_t rank = b.rank[k - 1];
+    bool bulk = b.bulk[k - 1]; uint32_t rank = b.rank[k - 1], ctx = b.ctx[k - 1];
     if (mode == M_SINGLE) {
-        if (!bulk) return true;
-        uint64_t first = g_quick ? 1 : 6, cap = g_quick ? 60 : 2500, stride = std::max<uint64_t>(g_quick ? 5 : 1, (b.nbulk + cap - 1) / cap);
-        return rank < first || (rank + g_seed) % stride == 0;
+        if (!bulk) return !g_quick || sc.kind != SC_HS || rank < 2 || (rank + g_seed) % 8 == 0;
+        uint64_t cap = g_quick ? 40 : 2500, stride = std::max<uint64_t>(g_quick ? 5 : 1, (b.nbulk + cap - 1) / cap);
+        if (g_quick) return (rank == 0 && (ctx + g_seed) % 2 == 0) || (k + g_seed) % stride == 0;
+        return rank < 6 || (rank + g_seed) % stride == 0;
     }
     // sticky: the first fault is the same as in single mode; what differs is that the error path cannot allocate either
-    if (!bulk) return g_quick ? (k + g_seed) % 3 == 0 : true;
-    return g_quick ? (rank == 0 && (b.ctx[k - 1] + g_seed) % 4 == 0) : rank < 2;
+    if (!bulk) return g_quick ? (rank < 2 && (k + g_seed) % 3 == 0) : true;
+    return g_quick ? (rank == 0 && (ctx + g_seed) % 6 == 0) : rank < 2;
 }
 
 static void report(Ctx &c, const std::string &sig, const std::string &detail) {
@@ -802,7 +807,8 @@ static void prop(Tape &t, Ctx &c) {
         report(c, sg.compare(0, 4, "c19:") == 0 ? sg : "c19:harness-baseline-broken", s.name + ": " + b.err); return;
     }
     if (mode != M_RANDOM) { if (k < 1 || k > b.N) throw Discard{}; }
-    if (!g_replay && !selected(b, mode, k)) throw Discard{};
+    if (!g_replay && !selected(s, b, mode, k)) throw Discard{};
+    g_cur_N = b.N;
     ChildResult r = run_child(s, mode, k);
     const c19_fault_t &f0 = g_shm->flog[0];
     void *fsite = g_shm->n_fault && f0.depth ? f0.stack[0] : nullptr;
@@ -890,7 +896,7 @@ void vf_global_init(int argc, char **argv) {
             const Base &b = base_of(i); printf("%2zu %-66s N=%5llu live0=%llu %s%s\n", i, g_scn[i].name.c_str(), (unsigned long long) b.N, (unsigned long long) b.live_total, b.bad ? "BROKEN: " : "", b.bad ? b.err.c_str() : b.outcome.c_str());
             if (getenv("C19_HIST")) { std::map<std::string, unsigned> h; for (auto pc : b.sites) h[site_str(pc)]++; std::vector<std::pair<unsigned, std::string>> v; for (auto &kv : h) v.push_back({ kv.second, kv.first }); std::sort(v.rbegin(), v.rend()); for (size_t j = 0; j < v.size() && j < 40; j++) printf("        %6u %s\n", v[j].first, v[j].second.c_str()); printf("        distinct sites: %zu\n", v.size()); }
             size_t sel[2][3] = { { 0, 0, 0 }, { 0, 0, 0 } };
-            bool q0 = g_quick; for (int q = 0; q < 2; q++) { g_quick = q; for (int m = 0; m < 2; m++) for (uint64_t k = 1; k <= b.N; k++) sel[q][m] += selected(b, m, k); sel[q][2] = q ? 12 : 300; for (int m = 0; m < 3; m++) tot[q][m] += sel[q][m]; } g_quick = q0;
+            bool q0 = g_quick; for (int q = 0; q < 2; q++) { g_quick = q; for (int m = 0; m < 2; m++) for (uint64_t k = 1; k <= b.N; k++) sel[q][m] += selected(g_scn[i], b, m, k); sel[q][2] = q ? 8 : 300; for (int m = 0; m < 3; m++) tot[q][m] += sel[q][m]; } g_quick = q0;
             if (b.live_total) { printf("      live after full teardown in the fault-free run:"); for (auto &kv : b.live) printf(" %ux %s;", kv.second, site_str(kv.first).c_str()); printf("\n"); }
             printf("      bulk=%zu other=%zu contexts=%zu | thorough single/sticky=%zu/%zu quick=%zu/%zu | main[%s] prime[%s]\n", b.nbulk, b.sites.size() - b.nbulk, b.nctx, sel[0][0], sel[0][1], sel[1][0], sel[1][1], facts_str(b.main_).c_str(), facts_str(b.prime).c_str());
         }
